@@ -62,6 +62,8 @@ def bases(tmp):
     csvf = os.path.join(tmp, "d.csv"); open(csvf, "w").write(csv)
     arfff = os.path.join(tmp, "d.arff"); open(arfff, "w").write(arff)
     arff2f = os.path.join(tmp, "d2.arff"); open(arff2f, "w").write(arff.replace("{L,M,N}", "{L,M}").replace(",N", ",M"))
+    # mutable argument objects the caller keeps: whatever is read, they must stay what the caller made them
+    RF1 = ["a", "xa", "x"]; RF2 = ["xa", "a", "xxa"]; RF3 = ["x", "xa"]
     def lam():
         return Environments.from_lambda(45, lambda i: [i % 5, i % 3], lambda i, c: [0, 1, 2], lambda i, c, a: float((a + i) % 3 == 0))
     def lam_sparse():      # sparse contexts whose later interactions bring feature names not seen before
@@ -82,7 +84,11 @@ def bases(tmp):
         "sup-arff":  (lambda: Environments.from_supervised(__import__("coba").environments.ArffSource(arfff), label_col="lbl"), "sim-cat"),
         "logged":    (lambda: Environments.from_linear_synthetic(50, n_actions=3, n_context_features=2, n_action_features=2, seed=7).logged(RandomLearner(), seed=2.5), "logged"),
         "logged-fx": (lambda: lam().logged(FixedLearner([.5, .25, .25]), seed=4), "logged"),
-    }, (X, Y)
+        # the caller's own reward_features list, with and without context / action features
+        "linear-rf":   (lambda: Environments.from_linear_synthetic(40, n_actions=3, n_context_features=2, n_action_features=2, reward_features=RF2, seed=3), "sim-dense"),
+        "linear-rf-a0": (lambda: Environments.from_linear_synthetic(40, n_actions=3, n_context_features=3, n_action_features=0, reward_features=RF1, seed=3), "sim-dense"),
+        "linear-rf-x0": (lambda: Environments.from_linear_synthetic(40, n_actions=3, n_context_features=0, n_action_features=2, reward_features=RF3, seed=3), "sim-dense"),
+    }, (X, Y, RF1, RF2, RF3)
 
 
 def _sp_a(i): return {"f%d" % (i % 7): 1, "g%d" % (i // 4): i % 3 + 1}
@@ -184,6 +190,59 @@ def pipelines(tmp, rng, count):
     return out, data
 
 
+def neighbours():
+    """the OTHER environments of an `other` step: the public constructors called with other arguments than the catalogue's bases -
+    arguments left at their defaults, feature kinds absent, other sizes / seeds.  Each is built afresh and read completely."""
+    from coba.environments import Environments
+    return [
+        lambda: Environments.from_linear_synthetic(12),
+        lambda: Environments.from_linear_synthetic(12, n_context_features=0),
+        lambda: Environments.from_linear_synthetic(12, n_action_features=0),
+        lambda: Environments.from_linear_synthetic(12, n_actions=2, n_context_features=0, n_action_features=3, reward_features=["a", "xa", "x"], seed=[2, 3]),
+        lambda: Environments.from_neighbors_synthetic(12),
+        lambda: Environments.from_neighbors_synthetic(12, n_context_features=0, n_neighborhoods=3),
+        lambda: Environments.from_neighbors_synthetic(12, n_action_features=0, n_neighborhoods=3),
+        lambda: Environments.from_kernel_synthetic(12),
+        lambda: Environments.from_kernel_synthetic(12, n_context_features=0, n_exemplars=3),
+        lambda: Environments.from_kernel_synthetic(12, n_action_features=0, n_exemplars=3, kernel="linear"),
+        lambda: Environments.from_mlp_synthetic(12),
+        lambda: Environments.from_mlp_synthetic(12, n_context_features=0),
+        lambda: Environments.from_bandit_synthetic(12),
+        lambda: Environments.from_lambda(12, _sp_b, _acts, _rwd).dense(8, "lookup"),
+        lambda: Environments.from_lambda(12, _dn_b, _acts, _rwd).shuffle(seed=[1, 2]).scale("min", "minmax"),
+    ]
+
+
+def read_others(made):
+    """an `other` step: every neighbour is built and read completely (a constructor this version of coba does not have, or that
+    rejects the arguments, is no neighbour).  `made` counts the environments read."""
+    for f in neighbours():
+        try: envs = list(f())
+        except Exception: continue
+        for e in envs:
+            for _ in e.read(): pass
+            e.params
+            made[0] += 1
+
+
+def clean_reference(factory):
+    """the first complete read and the params of a fresh pipeline IN A FORKED CHILD of this process as it is before any environment
+    has been read here: a reference that no earlier read of any other object in this process can have influenced"""
+    r, w = os.pipe(); pid = os.fork()
+    if pid == 0:
+        code = 1
+        try:
+            os.close(r); env = factory(); ref = [canon(i) for i in env.read()]
+            with os.fdopen(w, "w") as f: json.dump([ref, canon(dict(env.params))], f)
+            code = 0
+        finally:
+            os._exit(code)
+    os.close(w)
+    with os.fdopen(r) as f: txt = f.read()
+    os.waitpid(pid, 0)
+    return json.loads(txt) if txt else None
+
+
 def run(ctx):
     rng = random.Random(ctx.seed)
     # ---- 1. the design ----
@@ -193,15 +252,18 @@ def run(ctx):
                             ("guard:seed-restored-in-finally-but-cache-keeps-the-iterator", {'ShuffleMode = "local"': 'ShuffleMode = "finally"'}, "ParamsStable"),
                             ("guard:drop-forgets-iterator", {"DropKillsIter = FALSE": "DropKillsIter = TRUE"}, "CacheSound"),
                             ("save+sizes", SIZE_MODEL, None),
+                            ("others", {"Others = FALSE": "Others = TRUE"}, None),
+                            ("guard:other-read-rewrites-a-shared-default", {"Others = FALSE": "Others = TRUE", "SharedDefault = FALSE": "SharedDefault = TRUE"}, "ParamsStable"),
                             ("guard:save-collects-one-reused-buffer", {"N = 4": "N = 5", "BatchSet = {}": "BatchSet = {2}", "MaxOps = 3": "MaxOps = 1", "AliasBatches = FALSE": "AliasBatches = TRUE"}, "SavedSound")):
         cfg = tracecheck._cfg("EnvRead.cfg", sub, ctx.scratch, "er_%s.cfg" % nm.replace(":", "_"))
         r = tlc.run("EnvRead", cfg, ctx.scratch, workers=8, timeout=3600, coverage=(expect is None))
-        ctx.add_tlc("EnvRead " + nm, r, required_actions=((["Open", "Next1", "Drop", "Params", "Pickle"] + (["Save"] if nm == "save+sizes" else [])) if expect is None else ()))
+        ctx.add_tlc("EnvRead " + nm, r, required_actions=((["Open", "Next1", "Drop", "Params", "Pickle"] + (["Save"] if nm == "save+sizes" else []) + (["Other"] if nm == "others" else [])) if expect is None else ()))
         names = {v["name"] for v in r.violations}
         if expect is None:
             for v in r.violations: ctx.violation("spec:%s" % v["name"], "EnvRead.tla (%s) violates %s" % (nm, v["name"]), v["trace"][:60])
             if nm == "cache+shuffle": hists = [h for h in r.json if isinstance(h, list)]
             if nm == "save+sizes": shists = [h for h in r.json if isinstance(h, dict)]
+            if nm == "others": ohists = [h for h in r.json if isinstance(h, list) and any(s_["op"] == "other" for s_ in h)]
         elif expect not in names:
             raise RuntimeError("guard model %s does not violate %s: vacuous" % (nm, expect))
     hists = sorted({json.dumps(h, sort_keys=True) for h in hists})
@@ -211,6 +273,26 @@ def run(ctx):
     tmp = os.path.join(ctx.scratch, "data"); os.makedirs(tmp, exist_ok=True)
     pipes, data = pipelines(tmp, rng, ctx.pick(70, 400))
     data0 = copy.deepcopy(data)
+    # ---- histories with reads of OTHER environment objects between the steps (EnvRead.tla, Other): the object's reads and params
+    #      stay what a fresh identical pipeline gives in a process where nothing else has been read (clean_reference)
+    ohists = [json.loads(x) for x in sorted({json.dumps(h, sort_keys=True) for h in ohists})]
+    if len(ohists) < 50: raise RuntimeError("only %d histories with reads of other environments" % len(ohists))
+    nb = len(pipes) if not ctx.quick else 31
+    clean = [clean_reference(f) for _, f in pipes[:nb]]
+    rng3 = random.Random(ctx.seed * 104729 + 11); nother = 0; made = [0]
+    for (desc, factory), cr in zip(pipes[:nb], clean):
+        if cr is None: continue           # not readable: reported (curated) or skipped (random chain) by the catalogue replay below
+        for h in rng3.sample(ohists, min(len(ohists), ctx.pick(4, 12))):
+            ctx.case(json.dumps([desc, h])); nother += 1
+            bad = replay(factory, h, cr[0], cr[1], others=lambda: read_others(made), norm=True)
+            if bad:
+                sig, what = bad
+                ctx.violation("others:" + sig, "%s   pipeline=%s history=%s" % (what, desc, json.dumps([(s["op"], s["k"]) for s in h])), dict(pipeline=desc, history=h))
+            if data != data0:
+                ctx.violation("caller-data-modified", "reading modified the objects the caller passed in (%s)  pipeline=%s" % (json.dumps(data[2:]), desc), dict(pipeline=desc, history=h))
+                for o, o0 in zip(data, data0): o[:] = copy.deepcopy(o0)      # put the caller's objects back as they were
+    ctx.extra["other_env_cases"] = nother; ctx.extra["other_envs_read"] = made[0]
+    if nother < 60 or made[0] < 10 * nother // 2: raise RuntimeError("only %d histories with other reads ran (%d other environments read)" % (nother, made[0]))
     per = ctx.pick(25, len(hists))
     skipped = 0
     for desc, factory in pipes:
@@ -235,7 +317,7 @@ def run(ctx):
                 ctx.violation(sig, "%s   pipeline=%s history=%s" % (what, desc, json.dumps([(s["op"], s["k"]) for s in h])), dict(pipeline=desc, history=h))
             if data != data0:
                 ctx.violation("caller-data-modified", "reading modified the sequences the caller passed in  pipeline=%s" % desc, dict(pipeline=desc, history=h))
-                data = copy.deepcopy(data0)
+                for o, o0 in zip(data, data0): o[:] = copy.deepcopy(o0)
     ctx.traces = ctx.evaluations
     ctx.sample(dict(pipeline=pipes[0][0], history=hists[len(hists) // 2]), limit=1)
     ctx.extra["pipelines"] = len(pipes) - skipped; ctx.extra["chains_skipped_as_incompatible"] = skipped
@@ -350,11 +432,11 @@ def run(ctx):
 KMAP = {0: 0, 1: 1, 2: 25, 3: 30, 4: 31}
 
 
-def replay(factory, h, ref, ref_params, kmap=None, tmp=None):
+def replay(factory, h, ref, ref_params, kmap=None, tmp=None, others=None, norm=False):
     env = factory()
     read_once = False
     files = []
-    try: return _replay(env, h, ref, ref_params, kmap, tmp, files, read_once)
+    try: return _replay(env, h, ref, ref_params, kmap, tmp, files, read_once, others, (lambda x: json.loads(json.dumps(x))) if norm else (lambda x: x))
     finally:
         for f in files:
             if os.path.exists(f): os.remove(f)
@@ -363,26 +445,28 @@ def replay(factory, h, ref, ref_params, kmap=None, tmp=None):
 _NSAVE = itertools.count()
 
 
-def _replay(env, h, ref, ref_params, kmap, tmp, files, read_once):
+def _replay(env, h, ref, ref_params, kmap, tmp, files, read_once, others=None, norm=lambda x: x):
     for step in h:
         op = step["op"]
         try:
             if op == "full":
-                got = [canon(i) for i in env.read()]; read_once = True
+                got = norm([canon(i) for i in env.read()]); read_once = True
                 if got != ref: return ("full-read-differs", "a full read gave %d interactions %s the reference's %d%s" % (len(got), "vs" , len(ref), _first(got, ref)))
             elif op == "partial":
                 k = min(kmap(step["k"]) if kmap else KMAP.get(step["k"], step["k"]), max(len(ref) - 1, 0))
-                it = iter(env.read()); got = [canon(x) for x in itertools.islice(it, k)]
+                it = iter(env.read()); got = norm([canon(x) for x in itertools.islice(it, k)])
                 if hasattr(it, "close"): it.close()
                 del it
                 read_once = read_once or k > 0
                 if got != ref[:k]: return ("partial-read-differs", "the first %d interactions of a read differ from the reference%s" % (k, _first(got, ref[:k])))
             elif op == "params":
                 if read_once:
-                    p = canon(dict(env.params))
+                    p = norm(canon(dict(env.params)))
                     if p != ref_params: return ("params-changed", "params are %s, the reference reports %s" % (json.dumps(p)[:200], json.dumps(ref_params)[:200]))
             elif op == "pickle":
                 env = pickle.loads(pickle.dumps(env))
+            elif op == "other":      # other environment objects are built and read completely; this one is not touched
+                others()
             elif op == "save":       # save() reads the object as it is now; the history goes on with the environment save() returns
                 from coba.environments import Environments
                 f = os.path.join(tmp, "sv_%d.zip" % next(_NSAVE)); files.append(f)
